@@ -4,7 +4,7 @@
 #   3. repository test suite unchanged on the patched copy (217 passed, 4 failed)   4. ./check <ID> against the patched copy
 ID="$1"; V="$2"; TIER="${3:-quick}"
 HERE="$(cd "$(dirname "${BASH_SOURCE[0]}")/.." && pwd)"
-SRC="/tmp/seed/out/$ID"; [ -d "$SRC" ] || SRC="$HERE/seeded/$ID"
+SRC="${SEED_OUT:-/tmp/seed/out}/$ID"; [ -d "$SRC" ] || SRC="$HERE/seeded/$ID"
 PATCH="$SRC/$V.patch.diff"; DEMO="$SRC/demo_$V.py"
 [ -f "$PATCH" ] || { echo "NO-PATCH $ID $V"; exit 3; }
 CLEAN="$(mktemp -d /tmp/seedclean.XXXXXX)"; MUT="$(mktemp -d /tmp/seedmut.XXXXXX)"
